@@ -228,6 +228,7 @@ class Flow(object):
   def loop_source(self, expr, nid):
     """If `expr` is a local bound (only) as the plain target of a `for` statement reaching nid,
     the (iterable expr, for-node id); else None."""
+    expr, nid = self.resolve(expr, nid)
     if not isinstance(expr, ast.Name):
       return None
     b = self.binder(expr.id, nid)
@@ -269,11 +270,15 @@ class Flow(object):
     """All expressions `expr` may denote at node nid: locals are followed through every plain
     reaching assignment, conditional expressions are split into their branches."""
     out = []
+    seen = set()
     def go(e, n, chain, conds, d):
       if d > 0 and isinstance(e, ast.Name):
         vals = self.values_at(e.id, n)
         if vals:
           for (v, dn) in vals:
+            if (e.id, dn) in seen:
+              continue        # a value carried round a loop: nothing new
+            seen.add((e.id, dn))
             go(v, dn, chain + [dn], conds, d - 1)
           return
       if d > 0 and split and isinstance(e, ast.IfExp):
@@ -369,7 +374,7 @@ class Flow(object):
             return {e.id}
     return None
 
-  def guarded(self, nid, atom, want=True, kills=None):
+  def guarded(self, nid, atom, want=True, kills=None, extra_kills=()):
     """Every entry->nid path last learnt that an expression satisfying atom(expr, node id) has
     truth value `want` -- whichever way the guard is spelled (`if a: X`, `if not a: continue` + X,
     `if a and b: X`, swapped branches, `a != b` for `not a == b`, the test bound to a local
@@ -394,6 +399,7 @@ class Flow(object):
       kills = set()
       for nm in names:
         kills |= self.du.defs.get(nm, set())
+    kills = set(kills) | set(extra_kills)
     starts = {cfg.entry.id}
     for k in kills:
       starts |= set(cfg.normal_succ(k))
@@ -537,13 +543,19 @@ def callee_params(w, fn, call):
   """Positional parameter names of the single repository function `call` invokes (self dropped
   for methods and constructors), or None."""
   tg = callgraph(w).resolve(fn, call)
-  if len(tg) != 1:
+  if not tg and isinstance(call.func, ast.Attribute):
+    # an untyped receiver and a method name shared with builtin containers: take the repository
+    # methods of that name if they all agree on the signature
+    tg = list(callgraph(w)._by_method.get(call.func.attr, []))
+  sigs = set()
+  for fi in tg:
+    ps = fi.params()
+    if fi.cls is not None and not any(dotted(d) == "staticmethod" for d in fi.decorators()):
+      ps = ps[1:]
+    sigs.add(tuple(ps))
+  if len(sigs) != 1:
     return None
-  fi = tg[0]
-  ps = fi.params()
-  if fi.cls is not None and not any(dotted(d) == "staticmethod" for d in fi.decorators()):
-    ps = ps[1:]
-  return ps
+  return list(sigs.pop())
 
 
 def argn(w, fn, call, index):
@@ -611,3 +623,438 @@ def mutation_nodes_deep(w, fn, cfg=None, exclude=()):
     if h is not None and E.mutation_nodes(w.fn_of(h)):
       out.add(n.id)
   return out
+
+
+# ------------------------------------------------------------------------------------------
+# Following calls into extracted helpers: an inlined view of a function.
+#
+# `InlinedWorld(repo, anchors)` behaves like World, but the function wrappers it hands out are
+# built from a copy of the function in which every statement-level call of a *private helper*
+# (a method of the same class called on self, or a function of the same module, whose name starts
+# with "_" and is not one of the names the rules themselves anchor on) has been replaced by the
+# helper's body: parameters become fresh locals bound to the arguments, the helper's locals are
+# renamed apart, `return E` becomes an assignment to the call's target. The transformation is
+# behaviour-preserving, so whatever a rule decides on the inlined view holds for the real code; it
+# lets "a few statements were extracted into a new private helper" leave every rule unaffected.
+# The rule modules use it as a second opinion only (see `decide`): a rule that is satisfied on
+# the plain view is never re-run.
+
+import re as _re
+
+
+def anchors_of(*paths):
+  """Identifiers the rule sources mention: helpers with these names are never inlined, because a
+  rule looks for the call itself."""
+  out = set()
+  for p in paths:
+    try:
+      with open(p) as fh:
+        out |= set(_re.findall(r"[A-Za-z_][A-Za-z_0-9]*", fh.read()))
+    except IOError:
+      pass
+  return out
+
+
+class _Rename(ast.NodeTransformer):
+  def __init__(self, mapping):
+    self.m = mapping
+
+  def visit_Name(self, n):
+    if n.id in self.m:
+      n.id = self.m[n.id]
+    return n
+
+  def visit_ExceptHandler(self, n):
+    self.generic_visit(n)
+    if n.name in self.m:
+      n.name = self.m[n.name]
+    return n
+
+
+def _returns_inside_loops(stmts, depth=0):
+  for s in stmts:
+    if isinstance(s, ast.Return) and depth > 0:
+      return True
+    d = depth + (1 if isinstance(s, (ast.For, ast.While, ast.AsyncFor)) else 0)
+    for fld in ("body", "orelse", "finalbody"):
+      b = getattr(s, fld, None)
+      if isinstance(b, list) and b and isinstance(b[0], ast.stmt):
+        if _returns_inside_loops(b, d):
+          return True
+    for h in getattr(s, "handlers", []) or []:
+      if _returns_inside_loops(h.body, d):
+        return True
+  return False
+
+
+def _replace_returns(stmts, make):
+  """Copy of a statement list with every `return E` replaced by make(E) (a list of statements)."""
+  out = []
+  for s in stmts:
+    if isinstance(s, ast.Return):
+      out.extend(make(s.value))
+      continue
+    for fld in ("body", "orelse", "finalbody"):
+      b = getattr(s, fld, None)
+      if isinstance(b, list) and b and isinstance(b[0], ast.stmt):
+        setattr(s, fld, _replace_returns(b, make) or [ast.Pass()])
+    for h in getattr(s, "handlers", []) or []:
+      h.body = _replace_returns(h.body, make) or [ast.Pass()]
+    out.append(s)
+  return out
+
+
+class Inliner(object):
+  def __init__(self, repo, anchors, max_depth=2):
+    self.repo = repo
+    self.anchors = anchors
+    self.max_depth = max_depth
+    self.count = 0
+    self._elig = {}
+    self._full = {}
+
+  # -- which helper does a call invoke
+  def helper_of(self, fi, call):
+    f = call.func
+    h = None
+    if isinstance(f, ast.Attribute) and isinstance(f.value, ast.Name) and f.value.id == "self" \
+        and fi.cls is not None:
+      h = self.repo.find_method(fi.cls, f.attr)
+      # a closure's `self` is the enclosing method's
+    elif isinstance(f, ast.Attribute) and isinstance(f.value, ast.Name) and f.value.id == "self" \
+        and fi.parent is not None and fi.parent.cls is not None:
+      h = self.repo.find_method(fi.parent.cls, f.attr)
+    elif isinstance(f, ast.Name):
+      h = fi.module.functions.get(f.id)
+    if h is None or h.qualname == fi.qualname or h.module is not fi.module:
+      return None
+    return h if self.eligible(h) else None
+
+  def eligible(self, h):
+    """May calls of h be replaced by its body?"""
+    if h.qualname in self._elig:
+      return self._elig[h.qualname]
+    ok = True
+    nm = h.name
+    a = h.node.args
+    if not nm.startswith("_") or nm.startswith("__") or nm in self.anchors:
+      ok = False
+    elif h.node.decorator_list or a.vararg or a.kwarg or a.kwonlyargs or a.posonlyargs:
+      ok = False
+    elif _returns_inside_loops(h.node.body):
+      ok = False
+    else:
+      for x in ast.walk(h.node):
+        if isinstance(x, (ast.Yield, ast.YieldFrom, ast.Lambda, ast.Global, ast.Nonlocal,
+                          ast.ClassDef, ast.Await)) or \
+            (isinstance(x, (ast.FunctionDef, ast.AsyncFunctionDef)) and x is not h.node):
+          ok = False
+          break
+    self._elig[h.qualname] = ok
+    return ok
+
+  def fully_inlined(self, h):
+    """Every mention of helper h anywhere in the repository is a statement-level call that the
+    inlined view replaces by h's body: h's statements are then analysed in the context of each
+    caller, and h need not be analysed as a function of its own."""
+    if h.qualname in self._full:
+      return self._full[h.qualname]
+    res = self.eligible(h)
+    if res:
+      name = h.name
+      seen_any = False
+      for mod in self.repo.modules.values():
+        if name not in mod.source:
+          continue
+        sites = set()
+        for fi in self.repo.all_functions():
+          if fi.module is not mod:
+            continue
+          for x in ast.walk(fi.node):
+            if isinstance(x, (ast.Expr, ast.Assign, ast.Return)) and \
+                isinstance(getattr(x, "value", None), ast.Call):
+              # the innermost function containing the statement decides what `self` is; closures
+              # are indexed separately, so a statement may be seen from its outer function too
+              hh = self.helper_of(fi, x.value)
+              if hh is h:
+                sites.add(id(x.value.func))
+        for x in ast.walk(mod.tree):
+          if (isinstance(x, ast.Attribute) and x.attr == name) or \
+              (isinstance(x, ast.Name) and x.id == name):
+            if id(x) in sites:
+              seen_any = True
+            else:
+              res = False
+              break
+        if not res:
+          break
+      res = res and seen_any
+    self._full[h.qualname] = res
+    return res
+
+  def _expand(self, fi, h, call, site_kind, targets, stack):
+    """Statements replacing one call site; None when the call cannot be bound."""
+    self.count += 1
+    tag = "__%s%d" % (h.name.strip("_"), self.count)
+    params = [x.arg for x in h.node.args.args]
+    is_method = h.cls is not None and \
+        not any(dotted(d) == "staticmethod" for d in h.node.decorator_list)
+    if is_method:
+      if not params:
+        return None
+      self_name, params = params[0], params[1:]
+    else:
+      self_name = None
+    if any(isinstance(x, ast.Starred) for x in call.args) or \
+        any(k.arg is None for k in call.keywords) or len(call.args) > len(params):
+      return None
+    bound = dict(zip(params, call.args))
+    for k in call.keywords:
+      if k.arg not in params or k.arg in bound:
+        return None
+      bound[k.arg] = k.value
+    defaults = h.node.args.defaults
+    for p_, d in zip(params[len(params) - len(defaults):], defaults):
+      bound.setdefault(p_, d)
+    if set(bound) != set(params):
+      return None
+    body = copy.deepcopy(h.node.body)
+    if body and isinstance(body[0], ast.Expr) and isinstance(body[0].value, ast.Constant) and \
+        isinstance(body[0].value.value, str):
+      body = body[1:]
+    local = set(params)
+    for s in body:
+      for x in ast.walk(s):
+        if isinstance(x, ast.Name) and isinstance(x.ctx, (ast.Store, ast.Del)):
+          local.add(x.id)
+        elif isinstance(x, ast.ExceptHandler) and x.name:
+          local.add(x.name)
+    mapping = {nm: nm + tag for nm in local}
+    if self_name is not None and self_name != "self":
+      mapping[self_name] = "self"
+    ren = _Rename(mapping)
+    body = [ren.visit(s) for s in body]
+    # the helper's own private helpers, one more level
+    hfi = h
+    body = self._rewrite_block(hfi, body, stack + [h.qualname])
+    pre = []
+    for p_ in params:
+      a_ = ast.Assign(targets=[ast.Name(id=mapping[p_], ctx=ast.Store())],
+                      value=copy.deepcopy(bound[p_]))
+      pre.append(ast.copy_location(a_, call))
+    if site_kind == "return":
+      rv = "ret" + tag
+      targets = [ast.Name(id=rv, ctx=ast.Store())]
+    def assign(value):
+      if targets is None:
+        if value is None or isinstance(value, (ast.Name, ast.Constant)):
+          return []
+        return [ast.copy_location(ast.Expr(value=value), value)]
+      v = value if value is not None else ast.Constant(value=None)
+      return [ast.copy_location(ast.Assign(targets=copy.deepcopy(targets), value=v), call)]
+    rets = [x for s in body for x in ast.walk(s) if isinstance(x, ast.Return)]
+    tail_only = len(rets) == 1 and body and body[-1] is rets[0]
+    if not rets:
+      out = pre + body + assign(None)
+    elif tail_only:
+      out = pre + body[:-1] + assign(rets[0].value)
+    else:
+      inner = _replace_returns(body, lambda v: assign(v) + [ast.Break()])
+      falls = not (body and isinstance(body[-1], ast.Return))
+      inner = inner + ((assign(None) if falls else []) + [ast.Break()])
+      loop = ast.While(test=ast.Constant(value=True), body=inner, orelse=[])
+      out = pre + [ast.copy_location(loop, call)]
+    if site_kind == "return":
+      out.append(ast.copy_location(
+        ast.Return(value=ast.Name(id="ret" + tag, ctx=ast.Load())), call))
+    return out or [ast.copy_location(ast.Pass(), call)]
+
+  def _rewrite_block(self, fi, stmts, stack):
+    out = []
+    for s in stmts:
+      call, kind, targets = None, None, None
+      if isinstance(s, ast.Expr) and isinstance(s.value, ast.Call):
+        call, kind = s.value, "expr"
+      elif isinstance(s, ast.Assign) and isinstance(s.value, ast.Call):
+        call, kind, targets = s.value, "assign", s.targets
+      elif isinstance(s, ast.Return) and isinstance(s.value, ast.Call):
+        call, kind = s.value, "return"
+      rep = None
+      if call is not None and len(stack) <= self.max_depth:
+        h = self.helper_of(fi, call)
+        if h is not None and h.qualname not in stack:
+          rep = self._expand(fi, h, call, kind, targets, stack)
+      if rep is not None:
+        for r in rep:
+          ast.fix_missing_locations(r)
+        out.extend(rep)
+        continue
+      for fld in ("body", "orelse", "finalbody"):
+        b = getattr(s, fld, None)
+        if isinstance(b, list) and b and isinstance(b[0], ast.stmt) and \
+            not isinstance(s, (ast.FunctionDef, ast.AsyncFunctionDef, ast.ClassDef)):
+          setattr(s, fld, self._rewrite_block(fi, b, stack))
+      for h_ in getattr(s, "handlers", []) or []:
+        h_.body = self._rewrite_block(fi, h_.body, stack)
+      out.append(s)
+    return out
+
+  def inlined(self, fi):
+    """FuncInfo whose node has the private helpers inlined (fi itself when there is nothing to
+    inline)."""
+    from ..index import FuncInfo
+    before = self.count
+    node = copy.deepcopy(fi.node)
+    node.body = self._rewrite_block(fi, node.body, [fi.qualname])
+    if self.count == before:
+      return fi
+    ast.fix_missing_locations(node)
+    return FuncInfo(fi.module, fi.cls, node, fi.qualname, fi.parent)
+
+
+def make_inlined_world(repo, anchors):
+  from ..fn import World, Fn
+  class InlinedWorld(World):
+    def __init__(self, repo_):
+      World.__init__(self, repo_)
+      self.inliner = Inliner(repo_, anchors)
+      self.inlined_functions = set()
+    def fn(self, qualname):
+      return self.fn_of(self.repo.func(qualname))
+    def fn_of(self, fi):
+      if fi.qualname not in self._fns:
+        fi2 = self.inliner.inlined(fi)
+        if fi2 is not fi:
+          self.inlined_functions.add(fi.qualname)
+        self._fns[fi.qualname] = Fn(self, fi2)
+      return self._fns[fi.qualname]
+  return InlinedWorld(repo)
+
+
+def analysed_separately(w, fi):
+  """False for a private helper that the inlined view has folded into all of its callers (only
+  an InlinedWorld ever says so): rules that visit every function skip it there."""
+  inl = getattr(w, "inliner", None)
+  return not (inl is not None and inl.fully_inlined(fi))
+
+
+class _Buffer(object):
+  """Records what a rule function reports, to be committed to the real Run or dropped."""
+  def __init__(self, run):
+    self._run = run
+    self.calls = []
+    self.failed = 0
+    self.tier = getattr(run, "tier", "quick")
+    self.repo = getattr(run, "repo", None)
+    self.extra = run.extra
+
+  def rule(self, rule_id, desc, floor=None):
+    self.calls.append(("rule", (rule_id, desc, floor), {}))
+    return rule_id
+
+  def ob(self, rule, site, construct, what, ok, **kw):
+    self.calls.append(("ob", (rule, site, construct, what, ok), kw))
+    if not ok:
+      self.failed += 1
+    return bool(ok)
+
+  def guard(self, func, *args, **kw):
+    try:
+      return func(*args, **kw)
+    except AnalysisError as e:
+      self.calls.append(("err", (getattr(func, "__name__", "?"), str(e)), {}))
+      self.failed += 1
+      return None
+
+  def analysed(self, fi):
+    self.calls.append(("analysed", (fi,), {}))
+
+  def note(self, msg):
+    self.calls.append(("note", (msg,), {}))
+
+  def assume(self, msg):
+    self.calls.append(("assume", (msg,), {}))
+
+  def commit(self):
+    for kind, a, kw in self.calls:
+      if kind == "err":
+        self._run.errors.append(a)
+      else:
+        getattr(self._run, kind)(*a, **kw)
+
+
+def decide(run, repo, rule_functions, anchors, world=None, more_anchors=None):
+  """Run each rule function (signature f(run, world)) on the plain view of the code; when it is
+  not satisfied there (a failed obligation, or it cannot follow the code), ask again on the view
+  with private helpers inlined and report that verdict if it is clean. Otherwise the plain
+  verdict stands."""
+  from ..fn import World
+  w = world or World(repo)
+  state = {"iw": None}
+  for f in rule_functions:
+    buf = _Buffer(run)
+    err = None
+    try:
+      f(buf, w)
+    except AnalysisError as e:
+      err = e
+    if err is None and not buf.failed:
+      buf.commit()
+      continue
+    if state["iw"] is None:
+      extra = set()
+      if more_anchors is not None:
+        try:
+          extra = set(more_anchors(w))
+        except AnalysisError:
+          extra = set()
+      state["iw"] = make_inlined_world(repo, set(anchors) | extra)
+    buf2 = _Buffer(run)
+    ok2 = True
+    try:
+      f(buf2, state["iw"])
+    except AnalysisError:
+      ok2 = False
+    except Exception:
+      # the second opinion is best effort: whatever goes wrong there, the plain verdict stands
+      ok2 = False
+    if ok2 and not buf2.failed and state["iw"].inlined_functions:
+      buf2.commit()
+      continue
+    # keep what the rule reported (before it gave up, if it did); a rule that cannot decide is
+    # recorded like Run.guard does, so the other rules still report
+    buf.commit()
+    if err is not None:
+      run.errors.append((getattr(f, "__name__", "?"), str(err)))
+
+
+# ------------------------------------------------------------------------------------------
+def cname(fn, call_or_expr):
+  """Fn.name, but an attribute chain whose base is not a plain name (a call, a subscript) still
+  yields its attribute tail as "?.a.b" -- so `endswith(nm, "sorted_versions.pop")` also matches
+  `lookup(...).sorted_versions.pop(...)` when a local holding the receiver was inlined."""
+  nm = fn.name(call_or_expr)
+  if nm is not None:
+    return nm
+  e = call_or_expr.func if isinstance(call_or_expr, ast.Call) else call_or_expr
+  parts = []
+  while isinstance(e, ast.Attribute):
+    parts.append(e.attr)
+    e = e.value
+  if not parts:
+    return None
+  return "?." + ".".join(reversed(parts))
+
+
+def calls_E(fn, cfg=None):
+  """Fn.calls with cname names."""
+  cfg = cfg or fn.cfg
+  out = []
+  for n in cfg.nodes:
+    for c in calls_in(n.exprs):
+      out.append((n, c, cname(fn, c)))
+  return out
+
+
+def nodes_calling_E(fn, pred, cfg=None):
+  return {n.id for (n, c, nm) in calls_E(fn, cfg) if pred(c, nm, fn)}
